@@ -91,6 +91,7 @@ func JwtOutcome() string                       { panic("intrinsic") }
 func CancelRequest()                           { panic("intrinsic") }
 func HttpErrors() int                          { panic("intrinsic") }
 func HttpErrorCode(i int) int                  { panic("intrinsic") }
+func Lifecycle() string                        { panic("intrinsic") }
 func IgnoreGo()                                { panic("intrinsic") }
 func SchedulerMayRefuse()                      { panic("intrinsic") }
 // GinContext: wildcards are the catch-all route parameters (*name), which gin delivers with a leading "/".
